@@ -9,12 +9,15 @@ from sqlite_dissect.exception import InvalidVarIntError
 from ..impl.canon import err, guarded, hx, show_val
 from ..leanio import driver
 from ..gen.values import put_varint
+from ..translate import pyfun
 
 logging.getLogger("sqlite_dissect").setLevel(logging.CRITICAL + 1)
 logging.getLogger("sqlite_dissect").addHandler(logging.NullHandler())
 
 ID = "C15"
-LEAN_MODULES = ["SqliteDissect.Properties.C15"]
+LEAN_MODULES = ["SqliteDissect.Properties.C15", "SqliteDissect.Properties.GenFun"]
+TRANSLATORS = [pyfun]
+TRUSTED_EXTRA = [pyfun.TRUSTED]
 RULE = ("varint.dec: every 1- and 2-byte string (quick) / every string of <= 3 bytes (thorough) plus structured "
         "9/10-byte strings; varint.enc: +-2^k, +-2^k+-1 for k<=64 and random 64-bit; varint.rev: prefix||enc(v); "
         "serial.*: every serial type -3..300 plus boundaries with bodies of every short/exact/long length. "
